@@ -9,6 +9,11 @@
  *           the label write_primary_superblock_only is the same for every fs),
  *           write_primary_superblock() fallback path (no orig_super)
  *
+ *   MODE 3  write_primary_superblock() on the orig_super route (channel with write_byte, fs->orig_super mirrors
+ *           the device): TWO consecutive calls with images A then B over a byte-array device: after each call the
+ *           1024 superblock bytes on the device equal the image handed in (incremental word-wise update is
+ *           invisible) and orig_super mirrors the device again.
+ *
  * Property (format: s_checksum at 0x3FC = crc32c(~0, superblock[0, 0x3FC)),
  * s_block_group_nr at 0x5A = group of the copy, 0 for the primary):
  *   the 1024 bytes HANDED TO THE DEVICE carry s_block_group_nr of the copy and
@@ -31,6 +36,7 @@
  * query: metadata_csum on/off; MODE 2: journal_dev + needs_recovery); group and its block number symbolic (all 2^32 / 2^64) */
 struct vf_in {
 	unsigned char obj[1024];
+	__u32 csum_o, csum_a, csum_b;	/* MODE 3: s_checksum of the open-time image, of A and of B */
 	__u32 tok;
 	__u32 group;
 	__u64 group_block;
@@ -106,6 +112,56 @@ errcode_t io_channel_write_blk64(io_channel channel, unsigned long long block, i
 static errcode_t stub_flush(io_channel c) { (void) c; vf_nflush++; return 0; }
 static errcode_t stub_set_blksize(io_channel c, int s) { (void) c; vf_blksize = s; return 0; }
 
+#if MODE == 3
+/* BOUND: MODE 3: the images differ from each other only in s_wtime (0x30, lower half), s_checksum_seed (0x270, upper
+ * half) -- concrete values per query (-DLO_O/-DLO_A/-DLO_B, -DUP_O/-DUP_A/-DUP_B) -- and in s_checksum (0x3FC, the last
+ * two 16-bit words), fully symbolic in all three images.  (A symbolic difference anywhere but at the very end makes the
+ * loop counter of the word-compare loop symbolic for the remaining ~500 iterations.) */
+#ifndef LO_O
+#define LO_O 1
+#define LO_A 2
+#define LO_B 1
+#endif
+#ifndef UP_O
+#define UP_O 1
+#define UP_A 2
+#define UP_B 1
+#endif
+static struct ext2_super_block vf_orig __attribute__((aligned(8)));
+static struct ext2_super_block vf_imgA __attribute__((aligned(8)));
+static struct ext2_super_block vf_imgB __attribute__((aligned(8)));
+static unsigned char vf_dev[1024];	/* the device: bytes 1024..2047 of the disk */
+static int vf_dev_bad_write;
+/* STUB: io_channel_write_byte() stores the bytes in the device model (only inside the primary superblock) */
+errcode_t io_channel_write_byte(io_channel channel, unsigned long offset, int count, const void *data)
+{
+	const unsigned char *d = (const unsigned char *) data;
+	int i;
+	(void) channel;
+	if (offset < 1024 || count < 0 || offset + count > 2048) {
+		vf_dev_bad_write = 1;
+		return 0;
+	}
+	for (i = 0; i < 1024; i++)
+		if (i < count)
+			vf_dev[offset - 1024 + i] = d[i];
+	return 0;
+}
+static errcode_t stub_write_byte(io_channel c, unsigned long o, int n, const void *d)
+{
+	return io_channel_write_byte(c, o, n, d);
+}
+static int vf_dev_equals(const struct ext2_super_block *img)
+{
+	const unsigned char *p = (const unsigned char *) img;
+	int i;
+	for (i = 0; i < 1024; i++)
+		if (vf_dev[i] != p[i])
+			return 0;
+	return 1;
+}
+#endif
+
 static unsigned int ref_le32(const unsigned char *p)
 {
 	return p[0] | (p[1] << 8) | (p[2] << 16) | ((unsigned int) p[3] << 24);
@@ -118,6 +174,33 @@ int main(void)
 	unsigned int i;
 
 	VF_INPUT(IN);
+#if MODE == 3
+	vf_orig.s_wtime = LO_O; vf_imgA.s_wtime = LO_A; vf_imgB.s_wtime = LO_B;
+	vf_orig.s_checksum_seed = UP_O; vf_imgA.s_checksum_seed = UP_A; vf_imgB.s_checksum_seed = UP_B;
+	vf_orig.s_checksum = IN.csum_o; vf_imgA.s_checksum = IN.csum_a; vf_imgB.s_checksum = IN.csum_b;
+	for (i = 0; i < 1024; i++)
+		vf_dev[i] = ((unsigned char *) &vf_orig)[i];	/* orig_super is the image read at open time */
+	vf_mgr.write_byte = stub_write_byte;
+	vf_mgr.flush = stub_flush;
+	vf_mgr.set_blksize = stub_set_blksize;
+	vf_io.manager = &vf_mgr;
+	vf_fs.magic = EXT2_ET_MAGIC_EXT2FS_FILSYS;
+	vf_fs.super = &vf_imgA;
+	vf_fs.io = &vf_io;
+	vf_fs.blocksize = 4096;
+	vf_fs.orig_super = &vf_orig;
+	rc = write_primary_superblock(&vf_fs, &vf_imgA);
+	PROP(rc == 0 && !vf_dev_bad_write && vf_nwrites == 0, "primary sb (incremental): first update succeeds, byte writes inside the superblock only");
+	PROP(vf_dev_equals(&vf_imgA), "primary sb (incremental): after the first update the device holds image A");
+	vf_fs.super = &vf_imgB;
+	rc = write_primary_superblock(&vf_fs, &vf_imgB);
+	PROP(rc == 0 && !vf_dev_bad_write && vf_nwrites == 0, "primary sb (incremental): second update succeeds, byte writes inside the superblock only");
+	PROP(vf_dev_equals(&vf_imgB), "primary sb (incremental): after the second update the device holds image B");
+	PROP(vf_dev_equals(&vf_orig), "primary sb (incremental): orig_super mirrors the device");
+	(void) w;
+	VF_END();
+	return 0;
+#endif
 	for (i = 0; i < 1024; i++)
 		w[i] = IN.obj[i];
 	vf_sbW.s_feature_compat = 0;
